@@ -28,13 +28,25 @@ def main():
     if args and args[0].startswith('--round='):
         rnd = int(args.pop(0).split('=')[1])
         prefix, offset = f'/tmp/out{rnd}-', 2 * (rnd - 1)
+    area_root = None
+    if args and args[0].startswith('--area='):
+        # area rounds: <root>/<Area>/{patch,demo,notes}<i>; the property comes from the first line of the notes
+        area_root = Path(args.pop(0).split('=', 1)[1])
     for pid in args:
-        src = Path(f'{prefix}{pid}')
-        for i in (1, 2, 3):
+        src = Path(f'{prefix}{pid}') if area_root is None else area_root / pid
+        for i in (1, 2, 3, 4):
             patch, demo, notes = src / f'patch{i}.diff', src / f'demo{i}.py', src / f'notes{i}.md'
             if not patch.exists() or not demo.exists():
                 continue
             name = f'{pid}-{i + offset}'
+            area = None
+            if area_root is not None:
+                first = notes.read_text().splitlines()[0] if notes.exists() else ''
+                if not first.startswith('PROPERTY: C'):
+                    print(pid, i, 'REJECTED: notes do not name a property')
+                    continue
+                area, pid_ = pid, first.split()[1][:3]
+                name = f'{pid_}-{area}{i}'
             sh(f'git -C {WT} checkout -- .; git -C {WT} clean -fdq')
             clean = subprocess.run(['/venv/bin/python', str(demo)], env=env, capture_output=True, text=True, cwd=str(src), timeout=900)
             a = sh(f'git -C {WT} apply {patch}')
@@ -55,8 +67,9 @@ def main():
             text = notes.read_text() if notes.exists() else ''
             shutil.copy(notes, dest / 'notes.md') if notes.exists() else None
             meta = {
-                'property': pid,
-                'source': 'independent sub-agent given only the property text and a scratch worktree',
+                'property': pid if area is None else pid_,
+                'source': ('independent sub-agent given only the property text and a scratch worktree' if area is None else
+                           f'independent sub-agent given the 20 property statements, one theme ({area}) and a scratch worktree'),
                 'needs': ' '.join(text.split())[:600],
                 'confirmed': {
                     'repo_tests_with_patch': tests.stdout.strip()[-60:],
